@@ -277,13 +277,7 @@ theorem e4_operands_not_cmp (stmt : P Node) (k : Nat) :
     · simp only [if_true, bind_ok, get_ok, prev_ok] at h
       obtain ⟨_, _, hg, nt, s3, hpv, b2, s4, hin, h⟩ := h
       cases b2
-      · simp only [Bool.false_eq_true, if_false, bind_ok, modify_ok, pure_ok] at h
-        obtain ⟨_, _, hm, h⟩ := h
-        cases h
-        have := isE5_not_cmp hl
-        cases n <;> simp_all
-        rename_i k _ _ _ _
-        cases k <;> simp_all [Node.isCmp]
+      · simp [bind_ok, cur_ok, fail_ok] at h
       · simp only [if_true, bind_ok, prev_ok, modify_ok] at h
         obtain ⟨it, s5, hpv2, _, s6, hm, h⟩ := h
         split at h
